@@ -14,10 +14,13 @@
 package jws
 
 import (
+	"bytes"
 	"crypto/x509"
 	"encoding/base64"
 	"encoding/json"
+	"errors"
 	"fmt"
+	"io"
 
 	"github.com/golang-jwt/jwt/v4"
 	"github.com/notaryproject/notation-core-go/internal/timestamp"
@@ -76,7 +79,7 @@ func (e *envelope) Sign(req *signature.SignRequest) ([]byte, error) {
 	// parse payload as jwt.MapClaims
 	// [jwt-go]: https://pkg.go.dev/github.com/dgrijalva/jwt-go#MapClaims
 	var payload jwt.MapClaims
-	if err = json.Unmarshal(req.Payload.Content, &payload); err != nil {
+	if err = unmarshalPayload(req.Payload.Content, &payload); err != nil {
 		return nil, &signature.InvalidSignRequestError{
 			Msg: fmt.Sprintf("payload format error: %v", err.Error())}
 	}
@@ -110,6 +113,21 @@ func (e *envelope) Sign(req *signature.SignRequest) ([]byte, error) {
 	e.base = env
 
 	return encoded, nil
+}
+
+// unmarshalPayload parses the payload as a single JSON value. Numbers are kept
+// as json.Number so that they are signed exactly as given instead of being
+// converted to float64.
+func unmarshalPayload(content []byte, payload *jwt.MapClaims) error {
+	decoder := json.NewDecoder(bytes.NewReader(content))
+	decoder.UseNumber()
+	if err := decoder.Decode(payload); err != nil {
+		return err
+	}
+	if _, err := decoder.Token(); err != io.EOF {
+		return errors.New("invalid data after top-level value")
+	}
+	return nil
 }
 
 // Verify verifies the envelope and returns its enclosed payload and signer info.
